@@ -200,13 +200,17 @@ def new (max n : Nat) : CacheB :=
 
 /-! ## public operations -/
 
+/-- `self.table.remove_entry(hash, equivalent_key(key)).map(|e| remove_metadata(e))` -/
+def dedupe (c : CacheB) (id : Nat) (tomb : Nat) : CacheB :=
+  match c.find id with
+  | some x => removeAt c x tomb
+  | none => c
+
 def insert (p : Params) (c : CacheB) (k : Key) (v : Val) (o : Oracle) : CacheB :=
   let s := entrySize p k v
   if s > c.max then c
   else
-    let c1 := match c.find k.id with
-      | some x => removeAt c x o.tombs
-      | none => c
+    let c1 := c.dedupe k.id o.tombs
     let c2 := ejectTo (c1.table.length + 1) c1 (c.max - s) (if (c.find k.id).isSome then o.tombs - 1 else o.tombs)
     insertUnchecked c2 ⟨k, v, s⟩ o
 
